@@ -5,6 +5,7 @@ import NeumannModel.Parse.Nest
 import NeumannModel.Parse.Full
 import NeumannModel.Parse.Lex
 import NeumannModel.Parse.Text
+import NeumannModel.Parse.Clause
 /-
   Line-protocol driver for the expression-parser model (C15).
 
@@ -62,6 +63,17 @@ import NeumannModel.Parse.Text
                                     as `+`-joined code points.  Answer: tokens `K@lo-hi`, K = `eof` | `name:<TokenKind
                                     variant>` | `ident` | `int:<value>` | `float` | `str:<cp>.<cp>…` |
                                     `err:unterminated|integer|float|char` | `fuel`
+            clause <ctok>*          model of neumann_parser::parse on the clause-level grammar of SELECT
+                                    (Clause.lean).  ctok = `select` `distinct` `all` `,` `as` `c<k>` (identifier)
+                                    `e<k>` (a complete expression) `*` `from` `(` `)` `join` `inner` `left` `right`
+                                    `full` `outer` `cross` `natural` `on` `using` `where` `group` `by` `having`
+                                    `order` `asc` `desc` `nulls` `first` `last` `limit` `offset` `;` `other`.
+                                    Answer `ok Q`, Q = `(q d|- (items (it X A)…) SRC (where X|-) (group X…)
+                                    (having X|-) (order (o X asc|desc first|last|-)…) (limit X|-) (offset X|-))`,
+                                    X = `e<k>` | `id:c<k>` | `*`, A = `c<k>` | `-`, SRC = `-` | `(from T (j KIND T
+                                    COND)…)`, T = `(t c<k> A)` | `(sub Q A)`, COND = `-` | `(on X)` | `(using c<k>…)`;
+                                    errors / `outside` as for `sel` (expected = `expression` `identifier` `SELECT`
+                                    `(` `)` `JOIN` `BY` `LAST`)
             ptext expr|stmt <ch>*   model of neumann_parser::parse_expr(text) / of the WHERE clause of
                                     parse("SELECT * FROM t WHERE " + text) (Text.lean = Lex ∘ tokOf ∘ Full).
                                     Answers as for `full`, with the byte offset of the token instead of an
@@ -517,6 +529,76 @@ def showKind : Lex.Kind → String
 
 def showLexTok (t : Lex.Token) : String := s!"{showKind t.kind}@{t.lo}-{t.hi}"
 
+/-! ### clause-level grammar of SELECT (`Neumann.Parse.Clause`) -/
+
+def readCTok (s : String) : Option Clause.Tok :=
+  match s with
+  | "select" => some .select | "distinct" => some .distinct | "all" => some .all | "," => some .comma
+  | "as" => some .asKw | "*" => some .star | "from" => some .from | "(" => some .lparen | ")" => some .rparen
+  | "join" => some .join | "inner" => some .inner | "left" => some .left | "right" => some .right
+  | "full" => some .full | "outer" => some .outer | "cross" => some .cross | "natural" => some .natural
+  | "on" => some .on | "using" => some .using | "where" => some .whereKw | "group" => some .group
+  | "by" => some .byKw | "having" => some .having | "order" => some .order | "asc" => some .asc
+  | "desc" => some .desc | "nulls" => some .nulls | "first" => some .first | "last" => some .last
+  | "limit" => some .limit | "offset" => some .offset | ";" => some .semicolon | "other" => some .other
+  | _ => match readPfx 'c' s with
+    | some k => some (.ident k)
+    | none => (readPfx 'e' s).map Clause.Tok.expr
+
+def showXE : Clause.XE → String
+  | .opaque n => s!"e{n}" | .col n => s!"id:c{n}" | .wildcard => "*"
+
+def showAlias : Option Nat → String
+  | none => "-" | some n => s!"c{n}"
+
+def showOptX : Option Clause.XE → String
+  | none => "-" | some e => showXE e
+
+def showJK : Clause.JK → String
+  | .inner => "inner" | .left => "left" | .right => "right" | .full => "full" | .cross => "cross"
+  | .natural => "natural"
+
+def showJCond : Clause.JCond → String
+  | .none => "-"
+  | .on e => "(on " ++ showXE e ++ ")"
+  | .usingC c cols => "(using" ++ String.join ((c :: cols).map fun n => s!" c{n}") ++ ")"
+
+def showOItem (o : Clause.OItem) : String :=
+  " (o " ++ showXE o.e ++ (if o.desc then " desc " else " asc ")
+    ++ (match o.nulls with | none => "-" | some true => "first" | some false => "last") ++ ")"
+
+mutual
+def showCQ : Clause.Q → String
+  | .mk d items src tail =>
+    "(q " ++ (if d then "d" else "-") ++ " (items"
+      ++ String.join (items.map fun it => " (it " ++ showXE it.e ++ " " ++ showAlias it.alias ++ ")") ++ ") "
+      ++ showCSrc src ++ " (where " ++ showOptX tail.whr ++ ") (group"
+      ++ String.join (tail.group.map fun e => " " ++ showXE e) ++ ") (having " ++ showOptX tail.having
+      ++ ") (order" ++ String.join (tail.order.map showOItem) ++ ") (limit " ++ showOptX tail.limit
+      ++ ") (offset " ++ showOptX tail.offset ++ "))"
+def showCSrc : Clause.Src → String
+  | .none => "-"
+  | .from t joins => "(from " ++ showCT t ++ showCJL joins ++ ")"
+def showCT : Clause.TRef → String
+  | .tbl n a => s!"(t c{n} " ++ showAlias a ++ ")"
+  | .sub q a => "(sub " ++ showCQ q ++ " " ++ showAlias a ++ ")"
+def showCJL : Clause.JL → String
+  | .nil => ""
+  | .cons k t c rest => " (j " ++ showJK k ++ " " ++ showCT t ++ " " ++ showJCond c ++ ")" ++ showCJL rest
+end
+
+def showCExpect : Clause.Expect → String
+  | .expression => "expression" | .identifier => "identifier" | .select => "SELECT" | .lparen => "("
+  | .rparen => ")" | .join => "JOIN" | .byKw => "BY" | .last => "LAST"
+
+def showClauseRes (n : Nat) : Clause.Res Clause.Q → String
+  | .ok q => "ok " ++ showCQ q
+  | .error (.tooDeep rem) => s!"err too_deep {n - rem}"
+  | .error (.eof x) => "err eof " ++ showCExpect x
+  | .error (.unexpected x rem) => s!"err unexpected {showCExpect x} {n - rem}"
+  | .error .fuel => "err fuel"
+  | .outside => "outside"
+
 def showTextRes : Text.TRes → String
   | .ok e => "ok " ++ showFE e
   | .outside => "outside"
@@ -542,6 +624,8 @@ def parseStep (_ : Unit) (line : String) : Unit × String :=
       | _, _ => bad
   | "fsexp" :: ws => match readFTree ws with
       | some e => ((), "ok " ++ showFE e) | none => bad
+  | "clause" :: ws => match ws.mapM readCTok with
+      | some ts => ((), showClauseRes ts.length (Clause.parse ts)) | none => bad
   | "ptext" :: mode :: ws => match readMode mode, ws.mapM readCh with
       | some md, some cs => ((), showTextRes (Text.parseText md cs)) | _, _ => bad
   | "lex" :: ws => match ws.mapM readCh with
